@@ -63,12 +63,36 @@ type StepMonitor struct{ BaseMonitor }
 func (StepMonitor) ID() string { return "C02" }
 
 func (StepMonitor) OnWrite(x *Ctx, w *Write) {
+	// "no forward progress at all while the rollout is marked paused", on every raise of batchPartition: a reconcile
+	// that started with spec.strategy.paused=true must not authorise more pods (a higher batchPartition, or nil =
+	// promote the rest)
+	if w.Key.GVR.Resource == "batchreleases" && w.Actor == "R" && w.Verb == "update" && !w.Status && w.Before != nil && w.After != nil &&
+		x.Pre != nil && x.Pre.Rollout != nil && x.Pre.Rollout.Spec.Strategy.Paused && !requested(x.Mon, "rollback", "release3", "exit") {
+		b, a := asBR(w.Before), asBR(w.After)
+		if b != nil && a != nil && b.Spec.ReleasePlan.BatchPartition != nil && a.DeletionTimestamp == nil &&
+			(a.Spec.ReleasePlan.BatchPartition == nil || *a.Spec.ReleasePlan.BatchPartition > *b.Spec.ReleasePlan.BatchPartition) {
+			x.Count("C02 batchPartition raises in a paused reconcile judged")
+			sig := "C02/paused/batchPartition-raised"
+			if progressingReason(x.Pre.Rollout) == "Finalising" {
+				sig += "/after-finalising-began"
+			}
+			x.Violate(sig, fmt.Sprintf("rollout is paused (spec.strategy.paused=true, progressing reason %s) but the controller raised batchPartition %s -> %s",
+				progressingReason(x.Pre.Rollout), fmtInt32(b.Spec.ReleasePlan.BatchPartition), fmtInt32(a.Spec.ReleasePlan.BatchPartition)))
+		}
+		return
+	}
 	if w.Key.GVR.Resource != "rollouts" || w.Verb != "update" {
 		return
 	}
 	before, after := asRollout(w.Before), asRollout(w.After)
 	if before == nil || after == nil {
 		return
+	}
+	// the hand-over from the last step to the promotion of the remaining pods is forward progress too: a reconcile
+	// that started paused must not switch the release from InRolling to Finalising
+	if w.Actor == "R" && x.Pre != nil && x.Pre.Rollout != nil && x.Pre.Rollout.Spec.Strategy.Paused && !requested(x.Mon, "rollback", "release3", "exit") &&
+		progressingReason(before) == "InRolling" && progressingReason(after) == "Finalising" {
+		x.Violate("C02/paused/finalising-began", "rollout is paused (spec.strategy.paused=true) but the controller handed the release over to finalising (promotion of the remaining pods)")
 	}
 	bi, bs, _, bok := StepCursor(before)
 	ai, as, _, aok := StepCursor(after)
